@@ -617,6 +617,13 @@ int parse_instruction_propeller2(AsmContext *asm_context, char *instr)
       break;
     }
 
+    // operands[] has three entries.
+    if (operand_count >= 3)
+    {
+      print_error_opcount(asm_context, instr);
+      return -1;
+    }
+
     if (flags.has_flag != 0)
     {
       print_error_unexp(asm_context, token);
